@@ -275,6 +275,9 @@ fn obs_event(rec: &mut Rec, mut ev: Map<String, Value>) -> Value {
         );
     }
     ev.insert("lists".into(), Value::Object(lobj));
+    // every direct child of the MODULE in written order, also the ones outside the placement model
+    // (optional singletons, IF_DATA, USER_RIGHTS): [kind, name or comment text]
+    ev.insert("all".into(), Value::Array(written.iter().map(|(k, n)| json!([k, n])).collect()));
     ev.insert(
         "written".into(),
         Value::Array(
